@@ -80,7 +80,7 @@ theorem workerFlush_frame (c : Cfg) (s : St) (t : Task) :
     (workerFlush c s t).inflight = s.inflight ∧ (workerFlush c s t).files = s.files ∧
     (workerFlush c s t).closing = s.closing ∧ (workerFlush c s t).hold = s.hold := by
   have h := flushRows_frame s t.rows
-  have m := markFail_frame c.facts.workerFailSetsFlag (flushRows s t.rows)
+  have m := markFail_frame (workerSets c s) (flushRows s t.rows)
   unfold workerFlush
   exact ⟨m.1.trans h.1, m.2.1.trans h.2.1, m.2.2.1.trans h.2.2.1, m.2.2.2.1.trans h.2.2.2.1,
     m.2.2.2.2.1.trans h.2.2.2.2.1, m.2.2.2.2.2.1.trans h.2.2.2.2.2⟩
@@ -88,7 +88,7 @@ theorem workerFlush_frame (c : Cfg) (s : St) (t : Task) :
 theorem workerFlush_stored (c : Cfg) (s : St) (t : Task) (i : Nat) :
     cnt (workerFlush c s t).stored i ≤ cnt s.stored i + cnt t.rows i := by
   have h := flushRows_stored s t.rows i
-  have m := markFail_frame c.facts.workerFailSetsFlag (flushRows s t.rows)
+  have m := markFail_frame (workerSets c s) (flushRows s t.rows)
   unfold workerFlush; rw [m.2.2.2.2.2.2]; exact h
 
 theorem syncFlush_frame (c : Cfg) (s : St) (rows : List Row) :
@@ -96,7 +96,7 @@ theorem syncFlush_frame (c : Cfg) (s : St) (rows : List Row) :
     (syncFlush c s rows).inflight = s.inflight ∧ (syncFlush c s rows).files = s.files ∧
     (syncFlush c s rows).closing = s.closing ∧ (syncFlush c s rows).hold = s.hold := by
   have h := flushRows_frame s rows
-  have m := markFail_frame c.facts.syncFailSetsFlag (flushRows s rows)
+  have m := markFail_frame (syncSets c s) (flushRows s rows)
   unfold syncFlush
   exact ⟨m.1.trans h.1, m.2.1.trans h.2.1, m.2.2.1.trans h.2.2.1, m.2.2.2.1.trans h.2.2.2.1,
     m.2.2.2.2.1.trans h.2.2.2.2.1, m.2.2.2.2.2.1.trans h.2.2.2.2.2⟩
@@ -104,7 +104,7 @@ theorem syncFlush_frame (c : Cfg) (s : St) (rows : List Row) :
 theorem syncFlush_stored (c : Cfg) (s : St) (rows : List Row) (i : Nat) :
     cnt (syncFlush c s rows).stored i ≤ cnt s.stored i + cnt rows i := by
   have h := flushRows_stored s rows i
-  have m := markFail_frame c.facts.syncFailSetsFlag (flushRows s rows)
+  have m := markFail_frame (syncSets c s) (flushRows s rows)
   unfold syncFlush; rw [m.2.2.2.2.2.2]; exact h
 
 theorem workerFlush_cntLS (c : Cfg) (s : St) (t : Task) (i : Nat) :
@@ -262,7 +262,7 @@ theorem walAppend_mem (c : Cfg) (s : St) (e : Entry) : SameMem (walAppend c s e)
     · exact (drainChan_mem c _).trans ⟨rfl, rfl, rfl, rfl⟩
   · exact ⟨rfl, rfl, rfl, rfl⟩
 
-theorem walStage_mem (c : Cfg) (s : St) (k : Nat) (rows : List Row) : SameMem (walStage c s k rows) s := by
+theorem walStage_mem (c : Cfg) (s : St) (p k : Nat) (rows : List Row) : SameMem (walStage c s p k rows) s := by
   unfold walStage; split
   · exact (walAppend_mem c _ _).trans ⟨rfl, rfl, rfl, rfl⟩
   · exact ⟨rfl, rfl, rfl, rfl⟩
@@ -324,21 +324,50 @@ theorem foldl_insert_cnt (fs acc : List WFile) (i : Nat) :
 theorem sortByMtime_cnt (fs : List WFile) (i : Nat) : cnt (filesRows (sortByMtime fs)) i = cnt (filesRows fs) i := by
   unfold sortByMtime; rw [foldl_insert_cnt]; simp
 
+theorem replayRows_cntLS (c : Cfg) (k : Nat) (rows : List Row) (s : St) (i : Nat) :
+    cntLS (replayRows c k s rows) i ≤ cntLS s i + cnt rows i := by
+  unfold replayRows
+  induction rows generalizing s with
+  | nil => simp
+  | cons r rows ih =>
+    have h1 := ih (bufAppend c s k [r])
+    have h2 := bufAppend_cntLS c s k [r] i
+    have h3 : cnt (r :: rows) i = cnt [r] i + cnt rows i := by
+      rw [show r :: rows = [r] ++ rows from rfl, cnt_append]
+    simp only [List.foldl_cons]; omega
+
+theorem replayRows_files (c : Cfg) (k : Nat) (rows : List Row) (s : St) : (replayRows c k s rows).files = s.files := by
+  unfold replayRows
+  induction rows generalizing s with
+  | nil => rfl
+  | cons r rows ih => simp [List.foldl_cons, ih, bufAppend_files]
+
+theorem replayEntry_cntLS (c : Cfg) (s : St) (e : Entry) (i : Nat) :
+    cntLS (replayEntry c s e) i ≤ cntLS s i + cnt e.rows i := by
+  unfold replayEntry; split
+  · exact replayRows_cntLS c e.key e.rows s i
+  · exact bufAppend_cntLS c s e.key e.rows i
+
+theorem replayEntry_files (c : Cfg) (s : St) (e : Entry) : (replayEntry c s e).files = s.files := by
+  unfold replayEntry; split
+  · exact replayRows_files c e.key e.rows s
+  · exact bufAppend_files c s e.key e.rows
+
 theorem replayEntries_cntLS (c : Cfg) (es : List Entry) (s : St) (i : Nat) :
     cntLS (replayEntries c s es) i ≤ cntLS s i + cnt (entriesRows es) i := by
   unfold replayEntries
   induction es generalizing s with
   | nil => simp
   | cons e es ih =>
-    have h1 := ih (bufAppend c s e.key e.rows)
-    have h2 := bufAppend_cntLS c s e.key e.rows i
+    have h1 := ih (replayEntry c s e)
+    have h2 := replayEntry_cntLS c s e i
     simp only [List.foldl_cons, entriesRows_cons, cnt_append]; omega
 
 theorem replayEntries_files (c : Cfg) (es : List Entry) (s : St) : (replayEntries c s es).files = s.files := by
   unfold replayEntries
   induction es generalizing s with
   | nil => rfl
-  | cons e es ih => simp [List.foldl_cons, ih, bufAppend_files]
+  | cons e es ih => simp [List.foldl_cons, ih, replayEntry_files]
 
 /-- potential: copies in memory/Parquet plus copies in non-active WAL files -/
 def phi (s : St) (i : Nat) : Nat := cntLS s i + cnt (filesRows s.files) i
@@ -484,14 +513,17 @@ theorem restart_cntLS (c : Cfg) (s : St) (i : Nat) : cntLS (restart c s) i ≤ p
     omega
   · unfold phi; omega
 
-theorem write_cntLS (c : Cfg) (s : St) (k : Nat) (rows : List Row) (i : Nat) :
-    cntLS (write c s k rows) i ≤ cntLS s i + cnt rows i := by
-  unfold write
-  have h0 : cntLS (finishWrite c (bufAppend c (walStage c s k rows) k rows) rows) i
-      = cntLS (bufAppend c (walStage c s k rows) k rows) i := SameMem.cntLS ⟨rfl, rfl, rfl, rfl⟩ i
-  have h1 := bufAppend_cntLS c (walStage c s k rows) k rows i
-  have h2 := (walStage_mem c s k rows).cntLS i
+theorem writeP_cntLS (c : Cfg) (s : St) (p k : Nat) (rows : List Row) (i : Nat) :
+    cntLS (writeP c s p k rows) i ≤ cntLS s i + cnt rows i := by
+  unfold writeP
+  have h0 : cntLS (finishWrite c p (bufAppend c (walStage c s p k rows) k rows) rows) i
+      = cntLS (bufAppend c (walStage c s p k rows) k rows) i := SameMem.cntLS ⟨rfl, rfl, rfl, rfl⟩ i
+  have h1 := bufAppend_cntLS c (walStage c s p k rows) k rows i
+  have h2 := (walStage_mem c s p k rows).cntLS i
   omega
+
+theorem write_cntLS (c : Cfg) (s : St) (k : Nat) (rows : List Row) (i : Nat) :
+    cntLS (write c s k rows) i ≤ cntLS s i + cnt rows i := writeP_cntLS c s 0 k rows i
 
 theorem step1_cntLS (c : Cfg) (s : St) (i : Nat) : cntLS (step1 c s) i ≤ cntLS s i := by
   unfold step1; split
@@ -506,6 +538,7 @@ two events that replay (maintenance tick, restart) -/
 def added (s : St) (e : Ev) (i : Nat) : Nat :=
   match e with
   | .write _ rows => cnt rows i
+  | .writeT _ _ rows => cnt rows i
   | .tick => cnt (filesRows s.files) i
   | .restart => cnt (filesRows s.files) i
   | _ => 0
@@ -513,6 +546,8 @@ def added (s : St) (e : Ev) (i : Nat) : Nat :=
 theorem stepUp_cntLS (c : Cfg) (s : St) (e : Ev) (i : Nat) : cntLS (stepUp c s e) i ≤ cntLS s i + added s e i := by
   cases e with
   | write k rows => exact write_cntLS c s k rows i
+  | writeT d k rows => exact writeP_cntLS c s _ k rows i
+  | stall => exact Nat.le_refl _
   | tick =>
     have := tick_phi c s i
     unfold phi at this
@@ -552,8 +587,12 @@ theorem step_cntLS (c : Cfg) (s : St) (e : Ev) (obs : List Nat) (i : Nat) :
   cases e with
   | adv d => exact Nat.le_of_eq (hb d)
   | mode m =>
-    show cntLS { begin s obs 1 with failAfter := m } i ≤ cntLS s i + 0
-    have h0 : cntLS { begin s obs 1 with failAfter := m } i = cntLS (begin s obs 1) i := SameMem.cntLS ⟨rfl, rfl, rfl, rfl⟩ i
+    show cntLS { begin s obs 1 with failAfter := m, stalled := false } i ≤ cntLS s i + 0
+    have h0 : cntLS { begin s obs 1 with failAfter := m, stalled := false } i = cntLS (begin s obs 1) i := SameMem.cntLS ⟨rfl, rfl, rfl, rfl⟩ i
+    have := hb 1; omega
+  | stall =>
+    show cntLS { begin s obs 1 with failAfter := some 0, stalled := true } i ≤ cntLS s i + 0
+    have h0 : cntLS { begin s obs 1 with failAfter := some 0, stalled := true } i = cntLS (begin s obs 1) i := SameMem.cntLS ⟨rfl, rfl, rfl, rfl⟩ i
     have := hb 1; omega
   | restart =>
     show cntLS (if s.up then begin s obs 0 else restart c (begin s obs 1)) i ≤ cntLS s i + cnt (filesRows s.files) i
@@ -565,6 +604,7 @@ theorem step_cntLS (c : Cfg) (s : St) (e : Ev) (obs : List Nat) (i : Nat) :
       rw [begin_files] at this
       omega
   | write k rows => exact up _
+  | writeT d k rows => exact up _
   | wpause => exact up _
   | wresume => exact up _
   | hold => exact up _
